@@ -106,7 +106,7 @@ def tlc(module, cwd, cfg=None, env=None, workers=1, timeout=900, lib=None, extra
     gen = dist = 0
     for m in _STAT.finditer(out):
         gen, dist = int(m.group(1)), int(m.group(2))
-    violated = "is violated" in out or "Invariant" in out and "violated" in out
+    violated = "is violated" in out or ("Assumption" in out and "is false" in out)
     ok = (p.returncode == 0) and "Error:" not in out
     for f in os.listdir(cwd):
         if "_TTrace_" in f:
@@ -189,7 +189,7 @@ class Check:
         return r
 
     # -- generator ------------------------------------------------------------------------
-    def generate(self, module, name="prog", env=None, timeout=600, simulate=None, workers=1):
+    def generate(self, module, name="prog", env=None, timeout=600, simulate=None, workers=1, extra=None):
         out = os.path.join(self.dir, name + ".jsonl")
         if os.path.exists(out):
             os.remove(out)
@@ -197,12 +197,23 @@ class Check:
         e["VERIF_OUT"] = out
         if env:
             e.update(env)
-        r = tlc(module, os.path.join(SPEC, "gen"), cfg=module + ".cfg", env=e, workers=workers, timeout=timeout, lib=[os.path.join(SPEC, "core"), os.path.join(SPEC, "small")], metaroot=self.dir, simulate=simulate)
+        r = tlc(module, os.path.join(SPEC, "gen"), cfg=module + ".cfg", env=e, workers=workers, timeout=timeout, lib=[os.path.join(SPEC, "core"), os.path.join(SPEC, "small")], metaroot=self.dir, simulate=simulate,
+                extra=(extra or []) + (["-seed", str(self.seed), "-depth", "200"] if simulate else []))
         if not r["ok"] and not (simulate and os.path.exists(out)):
             raise Machinery("program generator %s failed\n%s" % (module, clean_out(r["out"])[-3000:]))
         if not os.path.exists(out) or os.path.getsize(out) == 0:
             raise Machinery("program generator %s produced no program" % module)
-        n = sum(1 for _ in open(out))
+        lines = []
+        for ln in open(out):
+            ln = ln.strip()
+            if not ln:
+                continue
+            if ln.startswith('"'):
+                ln = json.loads(ln)
+            lines.append(ln)
+        with open(out, "w") as fh:
+            fh.write("\n".join(lines) + "\n")
+        n = len(lines)
         log("  generator   %-28s %9d programs %6.1fs" % (module, n, r["wall"]))
         self.extra.setdefault("programs_generated", 0)
         self.extra["programs_generated"] += n
